@@ -63,6 +63,10 @@ def plan(tier: str, seed: int) -> list[dict]:
     for f in FORMATS:
         for r in range(reps):
             cases.append({"fmt": f, "r": r, "weight": 3})
+    for r in range(1 if tier == "quick" else 6):
+        cases.append({"fmt": "qcow2-many-open", "r": r, "weight": 6})
+    for r in range(2 if tier == "quick" else 20):
+        cases.append({"fmt": "vmdk-desc-huge", "r": r, "weight": 3})
     return cases
 
 
@@ -358,6 +362,120 @@ def build(fmt: str, rng):
     raise ValueError(fmt)
 
 
+def _many_open(rng, ctx, res, buf):
+    """A hundred and more large images open at the same time, read in turn: what one image has learned about its own tables stays
+    with it however many others are in use."""
+    from dissect.hypervisor.disk.qcow2 import QCow2
+
+    cnt = res["cnt"]
+    n_img = rng.choice([140, 160, 200])
+    cb, cs = 16, 1 << 16
+    size = 16 * TIB
+    imgs = []
+    for j in range(n_img):
+        g = rng.randrange(8192, size // cs)
+        view = wq.make_view(rng, size=size, cluster_bits=cb, kinds={g: "N"}, extl2=False, tag=rng.getrandbits(48))
+        img, _, meta = wq.build(rng, cluster_bits=cb, size=size, views=[view], version=3, placement="seq", far_base=rng.choice([1 << 32, 1 << 42]), far_frac=1.0, tuned_frac=0.0)
+        fh = ProxyFile(img.open())
+        o = call(QCow2, fh)
+        if not o.ok:
+            res["viol"].append({"what": f"open failed on conformant image: {o.brief()}", "mech": MECH, "detail": {"tb": o.tb}})
+            return res
+        imgs.append((o.value, fh, Model(size, [view.layer]), g * cs))
+    worst = 0
+    for rnd in range(4):
+        for q, fh, model, hot in imgs:
+            off = hot + rng.randrange(0, cs - 4096)
+            before = fh.bytes_read
+            o2 = call(lambda: (q.seek(off), q.read(4096))[1])
+            cost = fh.bytes_read - before
+            cnt["reads_compared"] = cnt.get("reads_compared", 0) + 1
+            if not o2.ok or o2.value != model.expected(off, 4096):
+                res["viol"].append({"what": "content mismatch at an extreme offset", "mech": MECH, "detail": {"offset": off, "outcome": o2.brief()}})
+                return res
+            if rnd >= 1:
+                worst = max(worst, cost)
+                allowed = 4096 + 2 * buf + 4096
+                cnt["second_pass_requests"] = cnt.get("second_pass_requests", 0) + 1
+                if cost > allowed:
+                    res["viol"].append({"what": "file I/O of a small request inside an already mapped unit is not proportional to the request",
+                                        "mech": "lazy-io.per-request", "detail": {"images_open": n_img, "round": rnd, "bytes_read": cost, "allowed": allowed}})
+                    return res
+    cnt["images_open_at_the_same_time"] = n_img
+    cnt["multi_tib_cases"] = 1
+    res["nontrivial"] = True
+    res["sig"] = ("many-open", n_img)
+    res["sample"] = {"format": "qcow2, many images open", "images": n_img, "worst_warm_read_cost": worst}
+    return res
+
+
+def _desc_huge(rng, ctx, res):
+    """A flat extent of more than 10^10 sectors named by a text descriptor, backed by a sparse file on disk."""
+    import os
+    import tempfile
+
+    from dissect.hypervisor.disk.vmdk import VMDK
+
+    cnt = res["cnt"]
+    d = tempfile.mkdtemp(prefix="vf-c13-")
+    TMPDIRS.append(d)
+    nsec = rng.choice([10**10, 10**10 + 7, 25769803776, 3 * 10**10]) + rng.randrange(0, 1000)
+    small = rng.randrange(1, 5000)
+    unit = 2048  # sectors
+    layer = Layer(nsec * SECTOR, unit, rng.getrandbits(48), 0, default=T)
+    hot_units = {0, nsec // unit - 1, (nsec // unit) // 2, (10**10 - 1) // unit} | {rng.randrange(nsec // unit) for _ in range(3)}
+    with open(os.path.join(d, "huge-flat.vmdk"), "wb") as f:
+        f.truncate(nsec * SECTOR)
+        for u in sorted(hot_units):
+            layer.units[u] = D
+            f.seek(u * unit * SECTOR)
+            f.write(layer.phys_bytes(u * unit, unit))
+    sf2, l2, _ = wvmdk.build_flat(rng, nsectors=small, tag=rng.getrandbits(48))
+    sf2.write_to(os.path.join(d, "small-flat.vmdk"))
+    order = rng.choice(["huge-first", "small-first"])
+    lines = [f'RW {nsec} VMFS "huge-flat.vmdk" 0', f'RW {small} VMFS "small-flat.vmdk" 0']
+    parts = [Model(nsec * SECTOR, [layer]), Model(small * SECTOR, [l2])]
+    if order == "small-first":
+        lines.reverse()
+        parts.reverse()
+    with open(os.path.join(d, "disk.vmdk"), "w") as f:
+        f.write(wvmdk.descriptor_text(lines, create_type="vmfs"))
+    from vf.core import ConcatModel
+
+    model = ConcatModel(parts)
+    o = call(VMDK, os.path.join(d, "disk.vmdk"))
+    if not o.ok:
+        res["viol"].append({"what": f"open failed on conformant image: {o.brief()}", "mech": MECH, "detail": {"tb": o.tb, "lines": lines}})
+        return res
+    v = o.value
+    if v.size != model.size:
+        res["viol"].append({"what": "size mismatch", "mech": MECH, "detail": {"got": v.size, "exp": model.size, "lines": lines}})
+        return res
+    base = 0 if order == "huge-first" else small * SECTOR
+    for u in sorted(hot_units):
+        off = base + u * unit * SECTOR + rng.randrange(0, unit * SECTOR - 5000)
+        o2 = call(lambda: (v.seek(off), v.read(4096))[1])
+        cnt["reads_compared"] = cnt.get("reads_compared", 0) + 1
+        if not o2.ok or o2.value != model.expected(off, 4096):
+            res["viol"].append({"what": "content mismatch at an extreme offset", "mech": MECH, "detail": {"offset": off, "outcome": o2.brief(), "lines": lines}})
+            break
+    tail = call(lambda: (v.seek(model.size - 3000), v.read(9000))[1])
+    if not tail.ok or tail.value != model.expected(model.size - 3000, 9000):
+        res["viol"].append({"what": "content mismatch at an extreme offset", "mech": MECH, "detail": {"offset": model.size - 3000, "outcome": tail.brief()}})
+    for dsk in getattr(v, "disks", []):
+        try:
+            dsk.fh.close()
+        except Exception:  # noqa: BLE001
+            pass
+    cnt["extent_lines_of_1e10_sectors_or_more"] = 1
+    cnt["multi_tib_cases"] = 1
+    res["sets"]["virtual_sizes_tib"] = [round(model.size / TIB, 2)]
+    res["nontrivial"] = True
+    res["sig"] = ("desc-huge", nsec, order)
+    res["sample"] = {"format": "vmdk descriptor + flat extents", "lines": lines}
+    return res
+
+
 def run(case: dict, ctx) -> dict:
     from dissect.util import stream as ustream
 
@@ -368,6 +486,10 @@ def run(case: dict, ctx) -> dict:
         import shutil
 
         shutil.rmtree(TMPDIRS.pop(), ignore_errors=True)
+    if case["fmt"] == "qcow2-many-open":
+        return _many_open(rng, ctx, res, ustream.STREAM_BUFFER_SIZE)
+    if case["fmt"] == "vmdk-desc-huge":
+        return _desc_huge(rng, ctx, res)
     opener, sf, model, info = build(case["fmt"], rng)
     buf = ustream.STREAM_BUFFER_SIZE
     size = info["size"]
